@@ -12,7 +12,7 @@
    assert) and `OutOfFuel` (the fuel the model gives its loops: |s|+1 for the
    loop of shAtomInternal and of ShAtoms, |s|+2 for ShToken). *)
 From PV Require Import Lib.Bytes Model.ShTok Spec.ShPartition Spec.ShWords
-  Proofs.ShTok Proofs.ShTokLoop Proofs.ShTokSpec Proofs.ShTokSplit.
+  Proofs.ShTok Proofs.ShTokLoop Proofs.ShTokSpec Proofs.ShTokSplit Proofs.ShTokWords Proofs.ShTokMk.
 Open Scope N_scope.
 
 Definition advance_contract (expr : str -> option (str * str)) : Prop :=
@@ -164,6 +164,92 @@ Theorem C10sh_split_tokens :
                    text = weave gaps toks rest.
 Proof. exact split_tokens_ok. Qed.
 Print Assumptions C10sh_split_tokens.
+
+(* (3) On a text made of simple words (Spec.ShWords: text bytes, \c, "..." , '...',
+   $$var / $${var...}, make expressions that `rx` recognises; or an operator
+   ; ;; & && | || ( ) [n]< [n]> [n]>> [n]<& [n]>& [n]<> [n]>| [n]<< [n]<<-) joined by
+   single blanks, the token list is exactly the list of words and nothing is left.
+   Needed of the expression lexer: it returns nil unless the text starts with a
+   dollar followed by a byte other than a dollar; it takes what rx recognises,
+   whatever follows; rx does not recognise ${_ULIMIT_CMD}. *)
+Theorem C10sh_split_simple_words :
+  forall (expr : str -> option (str * str)) (rx : str -> option str),
+  (forall s, dollar_start s = false -> expr s = None) ->
+  (forall w r x, rx (36 :: w) = Some r ->
+     exists e, 36 :: w = e ++ r /\ e <> [] /\ expr ((36 :: w) ++ x) = Some (e, r ++ x)) ->
+  (forall r, rx (ulimit_cmd ++ r) = None) ->
+  forall ws : list str, Forall (simple_word rx) ws ->
+  split_tokens expr (unwords ws) = Ok (ws, []).
+Proof. exact split_simple_words. Qed.
+Print Assumptions C10sh_split_simple_words.
+
+(* the executable test simple_word_b is sound for simple_word *)
+Theorem C10sh_simple_word_test :
+  forall rx w, simple_word_b rx w = true -> simple_word rx w.
+Proof. exact simple_word_b_sound. Qed.
+Print Assumptions C10sh_simple_word_test.
+
+(* ---------- end to end with the expression lexer of part C10mk ----------
+   mk_expr is Model.MkLexer.Expr (the model of MkLexer.Expr, proved advancing and
+   total in Props/C10mk.v) in the shape `expr` has here.  With it no hypothesis
+   about the expression lexer is left. *)
+Theorem C10sh_mk_expr_contract : advance_contract mk_expr.
+Proof. exact mk_expr_contract. Qed.
+Print Assumptions C10sh_mk_expr_contract.
+
+Theorem C10sh_split_tokens_mk :
+  forall text : str,
+  exists toks rest,
+    split_tokens mk_expr text = Ok (toks, rest) /\
+    exists l in_word,
+      sh_tokens mk_expr text = Ok (l, (in_word, rest)) /\
+      toks = map (fun p => tok_text (fst p)) l /\
+      Forall (fun t => t <> []) toks /\
+      Forall (fun p => tok_text (fst p) = concat (map a_text (tok_atoms (fst p))) /\
+                       tok_atoms (fst p) <> [] /\
+                       atoms_chain QPlain (tok_atoms (fst p))) l /\
+      exists gaps, length gaps = S (length toks) /\ Forall gap_ok gaps /\
+                   text = weave gaps toks rest.
+Proof. exact split_tokens_mk. Qed.
+Print Assumptions C10sh_split_tokens_mk.
+
+(* the form the C11 development can use: mkvar_rx recognises ${NAME}, NAME over
+   [A-Za-z0-9_] (not ${_ULIMIT_CMD}); simple_word_b is computable *)
+Theorem C10sh_split_simple_words_mk :
+  forall ws : list str, Forall (simple_word mkvar_rx) ws ->
+  split_tokens mk_expr (unwords ws) = Ok (ws, []).
+Proof. exact split_simple_words_mk. Qed.
+Print Assumptions C10sh_split_simple_words_mk.
+
+Theorem C10sh_split_simple_words_mk_b :
+  forall ws : list str, forallb (simple_word_b mkvar_rx) ws = true ->
+  split_tokens mk_expr (unwords ws) = Ok (ws, []).
+Proof. exact split_simple_words_mk_b. Qed.
+Print Assumptions C10sh_split_simple_words_mk_b.
+
+(* words of the kinds C11's printer uses:
+   echo  "my cmd"  'x y'  $$cmd  $${var}  "$${x:-default}"  ${ECHO}  ${WRKSRC}/file
+   x\ y  PATH=${PREFIX}/bin:$$PATH  [0-9]*  $$@  ;  ;;  &&  ||  |  (  )  {  }  2>&  >>  < *)
+Definition ex_words : list str :=
+  [ [101; 99; 104; 111]; [34; 109; 121; 32; 99; 109; 100; 34]; [39; 120; 32; 121; 39];
+    [36; 36; 99; 109; 100]; [36; 36; 123; 118; 97; 114; 125];
+    [34; 36; 36; 123; 120; 58; 45; 100; 101; 102; 97; 117; 108; 116; 125; 34];
+    [36; 123; 69; 67; 72; 79; 125]; [36; 123; 87; 82; 75; 83; 82; 67; 125; 47; 102; 105; 108; 101];
+    [120; 92; 32; 121];
+    [80; 65; 84; 72; 61; 36; 123; 80; 82; 69; 70; 73; 88; 125; 47; 98; 105; 110; 58; 36; 36; 80; 65; 84; 72];
+    [91; 48; 45; 57; 93; 42]; [36; 36; 64];
+    [59]; [59; 59]; [38; 38]; [124; 124]; [124]; [40]; [41]; [123]; [125];
+    [50; 62; 38]; [62; 62]; [60] ].
+Example C10sh_example_simple_words : forallb (simple_word_b mkvar_rx) ex_words = true.
+Proof. vm_compute. reflexivity. Qed.
+(* ... and the model computes what the theorem says *)
+Example C10sh_example_split : split_tokens mk_expr (unwords ex_words) = Ok (ex_words, []).
+Proof. vm_compute. reflexivity. Qed.
+(* outside the fragment: a word starting with '#' is a comment to the end of the text *)
+Example C10sh_example_comment :
+  simple_word_b mkvar_rx [35; 120] = false /\
+  split_tokens mk_expr (unwords [[97]; [35; 120]; [98]]) = Ok ([[97]; [35; 120; 32; 98]], []).
+Proof. vm_compute. split; reflexivity. Qed.
 
 (* ---------- the hypothesis is satisfiable ---------- *)
 
